@@ -640,9 +640,17 @@ for k in seq:
             open(mp, "w").write(text)          # a library file is only rewritten when its content really changes
         paths.append(mp)
     try:
-        out.append(Yaml2Regex(p, macros_from_terminal=paths or None).produce_regex())
+        y = Yaml2Regex(p, macros_from_terminal=paths or None)
+        out.append(y.produce_regex())
     except Exception as e:
         out.append("EXC " + type(e).__name__)
+        y = None
+    if len(seq) == 1:
+        # the same rule object compiled a second time (repeating an operation gives the same result)
+        try:
+            out.append(y.produce_regex() if y is not None else out[-1])
+        except Exception as e:
+            out.append("EXC " + type(e).__name__)
 print("RESULT " + json.dumps(out))
 """
 
@@ -659,7 +667,13 @@ print("RESULT " + json.dumps(out))
 
     n = len(items)
     with jasmapi.scratch() as d, ThreadPoolExecutor(12) as ex:
-        fresh = [r[0] for r in ex.map(lambda k: run_seq([k], d), range(n))]
+        fresh_runs = list(ex.map(lambda k: run_seq([k], d), range(n)))
+        fresh = [r[0] for r in fresh_runs]
+        for k, r in enumerate(fresh_runs):
+            run.count("compile_sequences_checked")
+            if r[1] != r[0]:
+                run.count("disagreements_replayed")
+                run.failure(f"{key_prefix}/RECOMPILE", f"produce_regex() called twice on one Yaml2Regex object of '{items[k][0]}' gives {r[1][:120]!r} the second time, {r[0][:120]!r} the first", {"kind": "sequence", "items": items, "seq": [k]})
         pairs = [(i, j) for i in range(n) for j in range(n)]
         for (i, j), res in zip(pairs, ex.map(lambda ij: run_seq(list(ij), d), pairs)):
             got = res[-1]
